@@ -45,19 +45,32 @@ def accepts(payload: bytes):
     return r
 
 
-def run_history(payloads, via=None):
+_BYSTANDER_POOL = None
+
+
+def run_history(payloads, via=None, bystander=None):
     """Drive one AutoDecoder through the payloads, checking the model invariant after every step.
     via[i] in (None, 'dlms', 'hdlc'): use decode_message with that message form and compare with a twin."""
     ad = autodecoder.AutoDecoder()
     twin = autodecoder.AutoDecoder()
+    other = autodecoder.AutoDecoder() if bystander else None  # a second, unrelated AutoDecoder alive at the same time
     remembered = None  # model: index of the decoder that produced the latest non-None result
     stats = {"none": 0, "some": 0, "switch": 0}
     for step, p in enumerate(payloads):
+        if other is not None:
+            try:
+                other.decode_message_payload(bystander[step % len(bystander)])
+            except Exception:  # noqa: BLE001 - the bystander's own outcome is not judged here
+                pass
         acc = accepts(p)
         form = via[step] if via else None
-        if form == "hdlc":
-            frames = hdlc.HdlcFrameReader(False).read(hdlc_frame_with(p)) if 0 < len(p) <= 2030 else []
-            form = "hdlc" if len(frames) == 1 and frames[0].payload == p and frames[0].is_valid else None
+        if form in ("hdlc", "hdlc-badfcs"):
+            wire_ = hdlc_frame_with(p) if 0 < len(p) <= 2030 else b""
+            if form == "hdlc-badfcs" and wire_:
+                wire_ = wire_[:-2] + bytes([wire_[-2] ^ 0x01]) + wire_[-1:]  # one FCS bit flipped: an invalid frame with the same payload
+            frames = hdlc.HdlcFrameReader(False).read(wire_) if wire_ else []
+            ok = len(frames) == 1 and frames[0].payload == p and frames[0].is_valid == (form == "hdlc")
+            form = "hdlc" if ok else None
         if form == "dlms":
             res = guarded(ad.decode_message, DlmsMessage(p), what="AutoDecoder.decode_message(DlmsMessage)")
         elif form == "hdlc":
@@ -106,6 +119,14 @@ JUNK = {
     "junk/ascii-garbage": b"1.8.0(123)xyz\r\n",
     "junk/kaifa-body-10-items": bytes([2, 10]) + b"".join(C.u32(i) for i in range(10)),
 }
+JUNK_EXTRA = {
+    "junk/kaifa-empty-list": bytes([2, 0]),  # 2 octets: an invalid DlmsMessage, but a structure of 0 elements the Kaifa/Kamstrup body grammars parse
+    "junk/kaifa-list1-bare": bytes([2, 1]) + C.u32(77),
+    "junk/p1-huge-exponent": b"1-0:1.7.0(1e999*kW)\r\n",
+    "junk/p1-float-overflow": b"1-0:1.8.0(1.8e305*kWh)\r\n",
+    "junk/p1-nan": b"1-0:1.7.0(nan*kW)\r\n",
+    "junk/p1-multi-value-only": b"1-0:99.97.0(2)(0-0:96.7.19)(101208152415W)(0000000240*s)\r\n",
+}
 SUB_POOL = [
     "aidon/frame/no_list_2", "aidon/body/no_list_3", "aidon/frame/se_list", "kaifa/frame/no_list_1", "kaifa/body/no_list_1", "kaifa/frame/no_list_3",
     "kaifa/body/se_list", "kaifa/body/no_list_2", "kamstrup/frame/no_list_1_three_phase", "kamstrup/body/no_list_2_three_phase",
@@ -114,6 +135,7 @@ SUB_POOL = [
 ] + sorted(JUNK)
 ALL = {n: GENUINE[n][0] for n in NAMES}
 ALL.update(JUNK)
+ALL.update(JUNK_EXTRA)
 assert len(SUB_POOL) == 24
 
 
@@ -165,20 +187,22 @@ def history_st(draw):
             nm = draw(st.sampled_from(NAMES))
             items.append((nm, ALL[nm]))
         elif kind == "junk":
-            nm = draw(st.sampled_from(sorted(JUNK)))
-            items.append((nm, JUNK[nm]))
+            nm = draw(st.sampled_from(sorted(JUNK) + sorted(JUNK_EXTRA)))
+            items.append((nm, ALL[nm]))
         elif kind == "mut":
             nm = draw(st.sampled_from(NAMES))
             items.append(("mut/" + nm, c15._mutate(ALL[nm], draw(st.lists(c15._op, min_size=1, max_size=3)))))
         else:
             items.append(("junk/random", draw(st.binary(max_size=40))))
-    via = [draw(st.sampled_from([None, None, "dlms", "hdlc"])) for _ in range(n)]
-    return ([i[0] for i in items], [i[1] for i in items], via)
+    via = [draw(st.sampled_from([None, None, "dlms", "hdlc", "hdlc-badfcs"])) for _ in range(n)]
+    bystander = [ALL[nm] for nm in draw(st.lists(st.sampled_from(NAMES + sorted(JUNK)), min_size=1, max_size=4))] if draw(st.booleans()) else None
+    return ([i[0] for i in items], [i[1] for i in items], via, bystander)
 
 
 def history_oracle(case) -> Info:
     names, payloads, via = list(case[0]), [bytes(p) for p in case[1]], list(case[2])
-    stats = run_history(payloads, via)
+    bystander = [bytes(b) for b in case[3]] if len(case) > 3 and case[3] else None
+    stats = run_history(payloads, via, bystander)
     nt, cl = classify(names, stats)
     return Info(nontrivial=nt, classes=tuple(cl), sample=names[:8])
 
@@ -230,7 +254,7 @@ def _materialise(meter, form, m):
         exp = dict(exp)
         exp["meter_datetime"] = C.dt_expected(tuple(apdu_dt))
         return C.llc_apdu(body, tuple(apdu_dt), tagged, invoke=0), exp, "Kamstrup_frame"
-    sets, text, _ident, _cs = m[1]
+    sets, text = m[1][0], m[1][1]
     return text.encode("ascii"), ("p1", sets, text), "P1"
 
 
@@ -265,8 +289,10 @@ def build() -> Check:
             "exhaustive: ALL histories of length <=3 over a 24-element sub-pool (17 genuine messages of every meter in frame and body form, P1 "
             "blocks, 7 junk payloads incl. ones a foreign grammar parses) = 14 424 histories. histories: Hypothesis operation lists of 1..30 "
             "payloads from the full pool (41 genuine messages), junk, 1..3-op mutants of genuine messages and random bytes, each step "
-            "through decode_message_payload or decode_message(DlmsMessage / reader-produced HdlcFrame) with a twin AutoDecoder fed the bare "
-            "payload. Reference model: the seven individual decoder functions are called directly (cached) - accepts = returns a dict; model "
+            "through decode_message_payload or decode_message(DlmsMessage / reader-produced HdlcFrame, valid or with a flipped FCS bit; payloads "
+            "shorter than 5 octets make invalid DlmsMessages) with a twin AutoDecoder fed the bare "
+            "payload; in half of the histories a second, unrelated AutoDecoder decodes other pool messages between the steps (instances must "
+            "be independent). Reference model: the seven individual decoder functions are called directly (cached) - accepts = returns a dict; model "
             "state = index of the decoder that produced the latest non-None result; invariant after every step (None iff nobody accepts; "
             "result is an accepting decoder's result, the remembered one's when it accepts; previous_success_decoder names the producer and "
             "is unchanged by rejected payloads; message form == payload form). genuine: generated Aidon/Kaifa/Kamstrup/P1 messages (C07-C09, "
